@@ -782,6 +782,13 @@ func c03(c *Ctx) {
 	c.NotDecided = []string{"nil-pointer dereferences and sends on closed channels (not enumerated)", "memory exhaustion by huge or highly compressible bodies", "liveness ('wedge') in general", "panics inside third-party libraries"}
 	e := newBndEngine(w)
 	scope := c03Scope(w)
+	added := 0
+	if c.Tier == "thorough" {
+		scope, added = vtaExtend(w, scope, []string{"(*pkg/statsd.DatagramParser).Run", "(*pkg/statsd.DatagramReceiver).Receive", "(*pkg/web.rawHttpHandlerV2).MetricHandler", "(*pkg/web.rawHttpHandlerV2).EventHandler"}, func(fn *ssa.Function) bool {
+			p := fnPkgPath(fn)
+			return strings.Contains(p, "/pkg/backends/") || p == Mod+"/pkg/stats" || strings.Contains(p, "/pkg/transport") || strings.Contains(p, "/pkg/healthcheck") || strings.Contains(p, "/pkg/fakesocket") || strings.Contains(p, "/internal/fixtures")
+		})
+	}
 	inScope := map[*ssa.Function]bool{}
 	for _, f := range scope {
 		inScope[f] = true
@@ -789,7 +796,7 @@ func c03(c *Ctx) {
 
 	c.Rule("C03.R2", "panic obligations over the ingestion scope are discharged", 85, func(r *Rule) {
 		bndRule(c, r, e, scope)
-		r.Note(fmt.Sprintf("%d functions in scope", len(scope)))
+		r.Note(fmt.Sprintf("%d functions in scope (%d added by the VTA call graph in the thorough tier)", len(scope), added))
 	})
 
 	c.Rule("C03.R2a", "witnesses of the assumptions used by R2: lexer next() shape, state entry conditions, frame of input/len, invariant establishment and preservation, ReadBatch contract, declared preconditions at call sites", 8, func(r *Rule) {
@@ -863,14 +870,6 @@ func c03(c *Ctx) {
 		}
 	})
 
-	if c.Tier == "thorough" {
-		c.Rule("C03.R4", "thorough: the VTA call graph adds no function to the ingestion scope that the structural scope missed", 1, func(r *Rule) {
-			vtaScopeCheck(c, r, scope, []string{"(*pkg/statsd.DatagramParser).Run", "(*pkg/statsd.DatagramReceiver).Receive", "(*pkg/web.rawHttpHandlerV2).MetricHandler", "(*pkg/web.rawHttpHandlerV2).EventHandler"}, func(fn *ssa.Function) bool {
-				p := fnPkgPath(fn)
-				return strings.Contains(p, "/pkg/backends/") || p == Mod+"/pkg/stats" || strings.Contains(p, "/pkg/transport") || strings.Contains(p, "/pkg/healthcheck")
-			})
-		})
-	}
 }
 
 func c04(c *Ctx) {
@@ -879,13 +878,20 @@ func c04(c *Ctx) {
 	c.NotDecided = []string{"panics inside third-party encoders (jsoniter, protobuf, AWS SDK)", "nil-pointer dereferences (not enumerated)", "numerical results"}
 	e := newBndEngine(w)
 	scope := c04Scope(w)
+	added := 0
+	if c.Tier == "thorough" {
+		scope, added = vtaExtend(w, scope, []string{"(*pkg/statsd.MetricFlusher).flushData"}, func(fn *ssa.Function) bool {
+			p := fnPkgPath(fn)
+			return p == Mod+"/pkg/stats" || strings.Contains(p, "/pkg/transport") || strings.Contains(p, "/pkg/healthcheck") || strings.Contains(p, "/pkg/fakesocket") || strings.Contains(p, "/internal/fixtures")
+		})
+	}
 	inScope := map[*ssa.Function]bool{}
 	for _, f := range scope {
 		inScope[f] = true
 	}
 	c.Rule("C04.R1", "panic obligations over the flush scope are discharged", 120, func(r *Rule) {
 		bndRule(c, r, e, scope)
-		r.Note(fmt.Sprintf("%d functions in scope", len(scope)))
+		r.Note(fmt.Sprintf("%d functions in scope (%d added by the VTA call graph in the thorough tier)", len(scope), added))
 	})
 	c.Rule("C04.R1a", "declared preconditions hold at every call site; witnesses of the summaries used by R1", 4, func(r *Rule) {
 		preconditionRule(c, r, e, inScope)
@@ -922,20 +928,11 @@ func c04(c *Ctx) {
 		}
 		r.Check("consumers-found", n >= 6, token.NoPos, fmt.Sprintf("%d backend functions read Timer.Histogram (their index/slice obligations are in R1)", n))
 	})
-	if c.Tier == "thorough" {
-		c.Rule("C04.R3", "thorough: the VTA call graph adds no module function to the flush scope that the structural scope missed", 1, func(r *Rule) {
-			vtaScopeCheck(c, r, scope, []string{"(*pkg/statsd.MetricFlusher).flushData"}, func(fn *ssa.Function) bool {
-				p := fnPkgPath(fn)
-				return p == Mod+"/pkg/stats" || strings.Contains(p, "/pkg/transport") || strings.Contains(p, "/pkg/healthcheck")
-			})
-		})
-	}
 }
 
-// vtaScopeCheck: functions reachable in the VTA call graph from the named entries that are in
-// the module, have obligations, and are missing from the structural scope.
-func vtaScopeCheck(c *Ctx, r *Rule, scope []*ssa.Function, entries []string, stop func(*ssa.Function) bool) {
-	w := c.W
+// vtaExtend adds to scope every module function reachable in the VTA call graph from the
+// named entries (function values and interface calls resolved by variable-type analysis).
+func vtaExtend(w *World, scope []*ssa.Function, entries []string, stop func(*ssa.Function) bool) ([]*ssa.Function, int) {
 	cg := w.VTA()
 	in := map[*ssa.Function]bool{}
 	for _, f := range scope {
@@ -953,7 +950,6 @@ func vtaScopeCheck(c *Ctx, r *Rule, scope []*ssa.Function, entries []string, sto
 			}
 		}
 	}
-	r.Check("vta:entries-found", len(stack) == len(entries), token.NoPos, fmt.Sprintf("%d of %d entries located in the call graph", len(stack), len(entries)))
 	for len(stack) > 0 {
 		fn := stack[len(stack)-1]
 		stack = stack[:len(stack)-1]
@@ -973,17 +969,16 @@ func vtaScopeCheck(c *Ctx, r *Rule, scope []*ssa.Function, entries []string, sto
 			stack = append(stack, cal)
 		}
 	}
-	var missing []string
+	added := 0
 	for fn := range seen {
-		if !IsModule(fn) || in[fn] || fn.Blocks == nil {
-			continue
-		}
-		if len(enumObligations(fn)) > 0 {
-			missing = append(missing, FuncName(fn))
+		if IsModule(fn) && !in[fn] && fn.Blocks != nil && !(stop != nil && stop(fn)) {
+			scope = append(scope, fn)
+			in[fn] = true
+			added++
 		}
 	}
-	sort.Strings(missing)
-	r.Check("vta:no-missed-function-with-obligations", len(missing) == 0, token.NoPos, fmt.Sprintf("functions reachable per VTA with obligations but outside the analysed scope: %v", missing))
+	sort.Slice(scope, func(i, j int) bool { return FuncName(scope[i]) < FuncName(scope[j]) })
+	return scope, added
 }
 
 var _ = types.Typ
